@@ -131,7 +131,7 @@ Qed.
 Theorem pending_step s ev : InvM s -> ~ readds_pending s ev -> pending_not_readded s -> pending_not_readded (step s ev).
 Proof.
   intros [HM HP] Hnk HK. pose proof Hnk as Hnk0. unfold readds_pending in Hnk.
-  destruct ev as [sums rolls tm|t| |x roll|ins outs roll hold| |r|r| | |ok| ]; cbn [step] in *.
+  destruct ev as [sums rolls tm|t| |x roll|j ins outs roll hold|j|r|r| | |ok| ]; cbn [step] in *.
   - destruct (s_p s); [exact HK|]. match goal with |- pending_not_readded (if ?c then _ else _) => destruct c end; [|exact HK].
     apply (pending_frame s); auto.
   - destruct (s_p s) as [p|] eqn:Ep; [|exact HK]. destruct (pc_get t p) as [|i rest] eqn:Epc; [exact HK|].
